@@ -576,3 +576,78 @@ def check_table(lst, tn, ti, ptabs, lines, fail, stats, res, job):
                     rv = T[rk]
                     if rv is None or rv.get('key') != rk or any(not same(rv[c], -by_i[c]) for c in cols):
                         fail('addressing', 'listingtable:reversed-key-negates', dict(base, row=rk), repr(rv)[:300], 'negated ' + repr(by_i)[:300])
+
+
+# ---------------------------------------------------------------------------------------
+# file level: the whole reader (open + index = i, skipped subsets) against the extracted model Reader.v,
+# and the membership of the listing in the class of the whole-file theorem (CheckT2.file_check)
+def skip_subsets(names, how):
+    subs = [list(c) for k in range(1, len(names) + 1) for c in itertools.combinations(names, k)]
+    if how == 'all': return subs
+    if how == 'some':                      # every single table, the first pair, all but the first table
+        out = [s for s in subs if len(s) == 1]
+        if len(names) >= 3: out.append(list(names[:2]))
+        if len(names) >= 2 and list(names[1:]) not in out: out.append(list(names[1:]))
+        return out
+    return []
+
+
+def run_exe(exe, case_lines):
+    import subprocess
+    p = subprocess.run([exe], input='\n'.join(case_lines) + '\n', stdout=subprocess.PIPE, stderr=subprocess.PIPE, text=True, timeout=3000)
+    if p.returncode != 0: return None, p.stderr[-500:]
+    out = p.stdout.split('\n')
+    if out and out[-1] == '': out.pop()
+    return out, ''
+
+
+def file_job(job):
+    """job: rel, src | lines (hex list), subs (explicit list or None), sim (fallback), skips ('none'|'some'|'all'), fchk (bool), exe"""
+    import t2listing as T
+    import c05_file as F
+    _CAPTURE_ON[0] = False
+    res = {'rel': job['rel'], 'subs': job.get('subs'), 'runs': [], 'fchk': None, 'cells': 0, 'visits': 0, 'error': None}
+    tmpdir = tempfile.mkdtemp(prefix='c05f-')
+    try:
+        if job.get('lines') is not None:
+            lines = [bytes.fromhex(h).decode('latin-1') for h in job['lines']]
+            name = job['rel'].replace('/', '_')
+        else:
+            lines = F.file_lines(open(job['src'], 'rb').read())
+            name = os.path.basename(job['src'])
+        if job.get('subs'):
+            split = [l[:-1] if l.endswith('\n') else l for l in lines]
+            split = apply_substitutions(split + ([''] if lines and lines[-1].endswith('\n') else []), [tuple(x) for x in job['subs']])
+            lines = F.file_lines('\n'.join(split).encode('latin-1'))
+        path = os.path.join(tmpdir, name)
+        with open(path, 'wb') as f: f.write(''.join(lines).encode('latin-1'))
+        sim, n, names = job.get('sim'), 0, []
+        try:
+            lst = T.t2listing(path); sim = lst.simulator; n = lst.num_fulltimes; names = list(lst._tablenames); lst.close()
+        except Exception: pass
+        if sim is None:
+            res['error'] = 'simulator unknown'; return res
+        res['sim'] = sim
+        idx_all = list(range(1, n)) + ([-1, -n] if n > 1 else [])
+        runs = [([], idx_all)] + [(s, [-1, 0] if n > 1 else []) for s in skip_subsets(names, job.get('skips', 'none'))]
+        cases = [F.case_line(sim, s, ix, lines) for s, ix in runs]
+        if job.get('fchk'):
+            tags = F.tag_lines(lines)
+            if tags is None: res['fchk'] = 'OUT no-outline'
+            else: cases.append(F.fchk_line(sim, tags, lines))
+        out, err = run_exe(job['exe'], cases)
+        if out is None or len(out) != len(cases):
+            res['error'] = 'driver failed: ' + err; return res
+        if job.get('fchk') and res['fchk'] is None: res['fchk'] = out[-1][:200]
+        for (s, ix), o in zip(runs, out):
+            impl = F.impl_run(T, path, s, ix, lines)
+            model = F.parse_model(o)
+            diffs = F.compare(impl, model)
+            nv = len(impl.get('visits', []))
+            nc = sum(len(c) for v in impl.get('visits', []) if 'data' in v for (_, c, _) in v['data'])
+            res['visits'] += nv; res['cells'] += nc
+            res['runs'].append({'skip': s, 'idxs': ix, 'diffs': [[str(a)[:300], str(b)[:300], str(c)[:300]] for a, b, c in diffs[:4]], 'ndiffs': len(diffs),
+                                'raises': impl.get('raise')})
+        return res
+    finally:
+        shutil.rmtree(tmpdir, ignore_errors=True)
